@@ -23,6 +23,11 @@ CLAIMED = {
    text="Structural necessary conditions of hub/room consistency decided at every site: each guarded field only under its mutex; every close(conn.send) only after the connection left Hub.connections and all rooms; every send on conn.send is in the hub loop or under Room.mu; a connection records membership only on the room's err==nil edge and forgets a room only with the room-side remove; inserts into Hub.connections/Room.connections are preceded in the same critical section by a len-vs-max test whose len==max outcome cannot reach the insert; NewServer's Config reaches the hub; client-controlled data is never type-asserted unchecked in hub goroutines.",
    note="Does not cover delivery guarantees, deadlock freedom with blocking channel sends, real interleavings. Known finding: Connection.Send has no closed-state guard (3 send sites). Lockset is receiver-insensitive. Trusted: go/types, go/ssa, the guard table in c16.go.",
    ref="DESIGN.md §3 C16"),
+ "C15": dict(
+   technique="static analysis: SSA must-lockset over JIT unit/specialisation/stats state, must-pass-through of invalidation entry points to every bytecode store, compiler-freshness (escape) rule over values and type declarations, tier-switch exhaustiveness",
+   text="Structural necessary conditions decided at every site of pkg/jit: unit fields, the units map, specialisation validity and stats only under their mutexes; InvalidateCache/ClearCache/RecordDeoptimization reach an invalidation of every store that holds bytecode for the route; a specialisation is returned only through its IsValid edge; each compilation uses a compiler created in that call and no field/variable/map of the package can hold one; tier switches that select code are total.",
+   note="Does not cover equivalence of tier bytecode (C03), linearizability, recompilation thresholds. Lockset receiver-insensitive. Trusted: go/types, go/ssa, guard table in c15.go.",
+   ref="DESIGN.md §3 C15"),
 }
 
 NA_REASONS = {}
